@@ -26,7 +26,9 @@ from vlib.runner import Violation, Discard
 ID = "C17"
 RULE = (
     "cases = (source: generated ModelSpec [<=2 populations, optional programs incl. explicit interaction outcomes] / hand-written 2-population 2-program spec / library "
-    "projects udt, tb_simple; uncertainty class none|zero|parset|progset|both with sigmas drawn as 0.1-5% of the value (program outcomes: 0.001-0.03 absolute); samples 2..32; "
+    "projects udt, tb_simple; uncertainty class none|zero|parset|progset|both with sigmas drawn as 0.1-5% of the value (program outcomes: 0.001-0.03 absolute), or class init = sigma on "
+    "initial stocks (compartment / characteristic databook entries) sized so that 20-60% of the draws are rejected with BadInitialization and resampled (rejections measured by a serial "
+    "replay and reported as labels rejected-draws / rejection-rate); samples 2..32; "
     "per case 3 direct sample() probes, 2 serial calls of Project.run_sampled_sims and 1 parallel call with 1,2,3,4,8,16 workers (or Ensemble.run_sims(parallel=True)); drawn "
     "seeds for the global numpy generator before every call); oracle = pairwise distinct fingerprints (result arrays + program inputs kept by the run) within one call when a "
     "perturbed input is visible one-to-one in the fingerprint, bitwise equality with the unsampled run when every sigma is 0/None, sources canon-unchanged, sample() never "
@@ -36,6 +38,7 @@ RULE = (
 ASSUMPTIONS = [
     "the harness does not own the OS schedule: it relies on the fault class (forked workers starting from one generator state) showing for (nearly) every schedule and varies worker and sample counts; a schedule in which a single worker happens to execute every task would hide it for that call",
     "distinctness is required only where a perturbed input reaches the fingerprint one-to-one (untargeted data parameter without function/limits/zero factor, or any program input, which Model.progset retains) and three harness-side perturbations confirm it; sigmas are at most 5% of the value; other cases (perturbation only on clipped, overwritten or function parameters, compartment sizes, transfers) are labelled no-one-to-one-path and still get every other oracle",
+    "initial stocks count as one-to-one visible: the stored initial size of an ordinary compartment / initial value of a characteristic is value + delta for every accepted draw; the number of rejected draws is measured harness-side by replaying a serial sample-run-resample loop from the case's seed (the parallel workers' own rejections are not observable), at most 50 attempts per sample as in atomica",
     "process start method is fork (Linux default in Python 3.12; sciris/multiprocess likewise): workers inherit the check process's sys.path, so VERIF_ATOMICA_SRC applies to workers as well",
     "serial reproducibility from np.random.seed is taken as promised because docs/examples/Uncertainty.ipynb seeds the global generator to obtain specific samples; parallel reproducibility and serial==parallel are not required",
     "a call that exhausts its 50 resampling attempts because of bad initial conditions is outside the domain (discarded, counted); generated specs atomica cannot build/run unsampled are discarded (C18)",
@@ -73,7 +76,7 @@ def cases(draw, tier="quick"):
         n = draw(st.integers(workers + 1, 32))
     else:
         n = draw(st.integers(2, 32))
-    return {"src": src, "unc": unc, "n": n, "par": par, "workers": workers, "seed": draw(SEEDS), "par_seed": draw(SEEDS), "probe_seeds": draw(st.lists(SEEDS, min_size=3, max_size=3, unique=True))}
+    return {"src": src, "unc": unc, "n": n, "par": par, "workers": workers, "seed": draw(SEEDS), "par_seed": draw(SEEDS), "probe_seeds": draw(st.lists(SEEDS, min_size=8 if unc == "init" else 3, max_size=8 if unc == "init" else 3, unique=True))}
 
 
 def strategy(tier):
@@ -128,6 +131,15 @@ def static_cases(tier):
     out.append(mk({"kind": "spec", "spec": _hand(no_sigma)}, "none", 4, "serial-only", None, 12))
     out.append(mk({"kind": "lib", "name": "udt", "progs": True, "start_off": 1, "par": [[0, {"rel": 0.01}]], "prog": [], "covout": [[0, 0.01, 0.4]]}, "both", 6, "ensemble", None, 13))
     out.append(mk({"kind": "lib", "name": "udt", "progs": False, "start_off": 1, "par": [[1, {"rel": 0.01}]], "prog": [], "covout": []}, "par", 20, "ensemble", None, 15))
+    def init_sigma(spec):
+        spec["data"]["q"]["c1"]["pa"]["s"] = 50.0 / 0.5244  # 30% of the draws give a negative initial c1
+        for c in spec["progs"]["covouts"]:
+            c["sigma"] = None
+
+    out.append(mk({"kind": "spec", "spec": _hand(init_sigma)}, "init", 12, "project", 3, 16))
+    out.append(mk({"kind": "lib", "name": "tb_simple", "progs": False, "start_off": 1, "par": [], "prog": [], "covout": [], "init": [[1, 0.5244]]}, "init", 12, "project", 1, 17))
+    out[-2]["probe_seeds"] += [6016, 7016, 8016, 9016, 10016]
+    out[-1]["probe_seeds"] += [6017, 7017, 8017, 9017, 10017]
     out.append(mk({"kind": "lib", "name": "tb_simple", "progs": True, "start_off": 1, "par": [[3, 0.0]], "prog": [[1, "unit_cost", 0.0]], "covout": [[0, 0.0, 0.95]]}, "zero", 4, "project", 2, 14))
     return out
 
@@ -231,6 +243,8 @@ def check(case):
     labels.append("unc:" + ("+".join(x for x, f in (("parset", m["ppos"]), ("progset", m["gpos"])) if f) or ("zero" if m["zero"] else "none")))
     if m["explicit"]:
         labels.append("explicit-interaction" + ("+sigma" if m["explicit_sigma"] else ""))
+    if m["init"]:
+        labels.append("init-uncertainty")
     what = "uncertainty=%s n=%d" % (labels[2], n)
 
     try:
@@ -282,10 +296,27 @@ def check(case):
     else:
         # distinctness is only required where a perturbed input is visible one-to-one in the fingerprint (so that two different
         # draws cannot collapse onto one result through limits, inactive programs, functions ...), confirmed by the three probes
+        # (probes rejected for bad initial conditions do not count; at least two must have been accepted)
         got = [f for f in probes if f is not None]
         one_to_one = m["eff_par"] or m["gpos"]
-        sensitive = one_to_one and len(got) == 3 and len(set(got + [fp_base])) == 4
+        sensitive = one_to_one and len(got) >= 2 and len(set(got + [fp_base])) == len(got) + 1
         labels.append("distinctness-checked" if sensitive else ("no-one-to-one-path" if not one_to_one else "probes-not-distinct"))
+    if m["init"]:
+        # how often a draw is rejected: replay of a serial sampling loop (sample, run, resample on BadInitialization) from the case's seed
+        np.random.seed(case["seed"])
+        acc = rej = 0
+        while acc < n and rej < 50 * n:
+            try:
+                P.run_sim(ps.sample(), pg.sample() if pg is not None else None, ins)
+                acc += 1
+            except at.BadInitialization:
+                rej += 1
+            except Exception as e:
+                raise Discard("perturbed run raised %s at %s (not a sampling matter)" % (type(e).__name__, simcase.atomica_frame(e)))
+        rate = rej / float(max(1, rej + acc))
+        labels.append("rejected-draws:" + ("0" if rej == 0 else "1-2" if rej <= 2 else "3-9" if rej <= 9 else "10+"))
+        labels.append("rejection-rate:" + ("0" if rej == 0 else "<20%" if rate < 0.2 else "20-60%" if rate <= 0.6 else ">60%"))
+        what += " rejected %d of %d draws in a serial replay" % (rej, rej + acc)
 
     # ---- 2. the calls ---------------------------------------------------------------------------------------------------------
     def judge(fps, where, bucket_where, detail):
